@@ -78,6 +78,14 @@ func (l *loopInfo) invariant(v ssa.Value) bool {
 		if calleeName(&x.Call) == "builtin:len" {
 			return l.invariant(x.Call.Args[0])
 		}
+		// pure size queries on a loop-invariant receiver (contract)
+		switch calleeName(&x.Call) {
+		case "(reflect.Type).NumField", "(reflect.Value).Len", "(reflect.Value).NumField":
+			if x.Call.IsInvoke() {
+				return l.invariant(x.Call.Value)
+			}
+			return len(x.Call.Args) == 1 && l.invariant(x.Call.Args[0])
+		}
 	case *ssa.UnOp:
 		// load of a field of an invariant object that the loop does not store to: accept
 		// loads through invariant addresses (e.g. len(m.mapping.Data))
